@@ -212,6 +212,7 @@ class Options:
     loop_mode: str = "summary"  # summary | unroll
     unroll: int = 3
     record_cond_calls: bool = True
+    fork_ifexp: bool = True  # fork on a conditional expression assigned / returned (else keep it symbolic)
 
 
 class Enumerator:
@@ -340,6 +341,10 @@ class Enumerator:
         if isinstance(st, ast.AugAssign):
             self._record_calls(st.value, p, fi)
             v = subst(st.value, p)
+            if isinstance(st.target, ast.Name) and st.target.id in p.env:
+                # a substituted local / inlined parameter: keep it symbolic
+                p.env[st.target.id] = ast.BinOp(left=p.env[st.target.id], op=st.op, right=v)
+                return [p]
             tgt = U(subst(_as_load(st.target), p)) if not isinstance(st.target, ast.Name) else st.target.id
             p.effects.append(Effect("aug", st, recv=tgt, name=type(st.op).__name__, value=v, fi=fi))
             b = st.target
@@ -652,7 +657,7 @@ class Enumerator:
 
     # -- values (with inlining and IfExp forking) --------------------------------------
     def _value(self, e: ast.expr, p: Path, fi: FuncInfo, stmt_call: bool = False) -> List[Tuple[Path, ast.expr]]:
-        if isinstance(e, ast.IfExp):
+        if isinstance(e, ast.IfExp) and self.o.fork_ifexp:
             out = []
             for q, val in self._truth(e.test, p, fi, orig=e.test):
                 out.extend(self._value(e.body if val else e.orelse, q, fi))
